@@ -80,6 +80,26 @@ def apply_unified_diff(src: dict, text: str, name: str = "") -> None:
         if ln.startswith("@@") and cur is not None:
             start = int(ln.split()[1].split(",")[0][1:])
             start = max(start - 1, 0) if lines else 0
+            # the base may have moved by a few lines since the diff was taken (repairs committed to
+            # the repository): locate the hunk's own context/removed lines near the stated position
+            j = i + 1
+            want = []
+            while j < len(it) and not it[j].startswith(("@@", "diff --git", "--- ")):
+                if it[j][:1] in (" ", "-"):
+                    want.append(it[j][1:].rstrip("\n"))
+                j += 1
+            if want and lines:
+                def fits(k):
+                    return k >= pos and k + len(want) <= len(lines) and all(lines[k + q].rstrip("\n") == want[q] for q in range(len(want)))
+
+                if not fits(start):
+                    for d in range(1, 60):
+                        if fits(start + d):
+                            start += d
+                            break
+                        if fits(start - d):
+                            start -= d
+                            break
             out += lines[pos:start]
             pos = start
             i += 1
